@@ -20,6 +20,7 @@ Part B  string forms.  Every derivation of a small AST of the documented mixture
         around // and between number and unit) is printed, parsed by the real parser and compared
         with the call it abbreviates (evaluated through mix_by_weight / mix_by_volume on the parts),
         plus total_mass / thickness against the stated amounts and the documented error cases.
+        Block 'repeats': the same compound twice with different density tags in every family.
         Sub-derivations are checked before their parent (a parent of a violating sub-mixture is not
         explored); a failure is named after the deviations from the canonical spelling that are
         individually necessary for it."""
@@ -30,7 +31,13 @@ from ..ref import mix as R
 META = dict(
     level="model_checking", engine="E1",
     technique="bounded-exhaustive exploration of the mixture graph and of the mixture grammar's derivations",
-    rule=("A: zero quantities of components WITHOUT density are ordinary members (they vanish: no error by volume, "
+    rule=("Forced collision in all three parts: the SAME compound (equal structure) twice in one mixture with two "
+          "different densities, or once with and once without a density (A: bases H2O@1 / H2O@0.92 and SiO2 / "
+          "SiO2@2.2, a mixture and its copy with another density; C: object pairs of equal structure; B: block "
+          "'repeats').  A failure that disappears when the later occurrence is replaced by the earlier object is "
+          "named ':same-compound-other-density'.  Percentages that add up to exactly 100 are judged: the remainder "
+          "is a zero quantity, the last part vanishes (cause ':percentages-sum-to-100').  "
+          "A: zero quantities of components WITHOUT density are ordinary members (they vanish: no error by volume, "
           "and the density is judged from the remaining parts); the Formula objects passed in are shared by all events "
           "of a shard, observed before use, and compared after every call (stored attributes; after each component "
           "tuple also the readable values).  C: all event sequences over {10 judged call forms, 2 keyword calls, 4-5 "
@@ -49,10 +56,13 @@ META = dict(
           "Non-trivial = at least two components with positive quantity (a proportion is really tested) or a "
           "documented error case."),
     bound=dict(
-        quick=("A: depth 1: k<=2 over 14 bases (7 compounds, each also with the formula unit x3.2), k=3 over 8; "
-               "depth 2: k<=2 over 14 bases + R1, k=3 over 3 bases + 4 of R1; all 7 quantities; string arguments k<=2.  "
+        quick=("A: depth 1: k<=2 over 18 bases (9 compounds, each also with the formula unit x3.2), k=3 over 10; "
+               "depth 2: k<=2 over 18 bases + R1 (11), k=3 over 3 bases + 5 of R1; all 7 quantities; string arguments k<=2.  "
+               "B repeats: 3 component triples (X@d1, Y, X@d2 / X without density) x 6 orders x (wt% / vol% with "
+               "remainder and with sum 100, 13 unit pairs, across a repeated group, across a nested part, nested "
+               "percentages) + the repeated compound alone: 552 derivations.  "
                "B: all 10+6 percentage spellings first, bare % or one spelling on all later parts, 1..3 explicit parts, "
-               "4 spacings of // x 2 of number-unit; percentage tuples 11 + 121 + 5^3 over 3 component sets; all 13 units "
+               "4 spacings of // x 2 of number-unit; percentage tuples 13 + 169 + 6^3 over 3 component sets; all 13 units "
                "single x 6 quantities x 5 compounds, all 81 + 16 ordered unit pairs x 6 quantity pairs x 2 component "
                "pairs (+ missing-density pairs, + 8 spacings), all 729 + 64 unit triples; nested parts: 15 outer forms x "
                "7 inner mixtures x {no tag, @2.5, @1.5n} x 5 spacings (nesting depth 2); repeated groups: count "
@@ -60,13 +70,13 @@ META = dict(
                "collisions: 53 parts (40 elements by the first-letter rule, 13 compounds) x (16 first spellings + 18 "
                "later spellings incl. bare % + 6 other positions + 13 units x 3 positions) x 2 number-unit spacings; "
                "5 scaled parts in the same forms; zero amounts of the density-less part in every unit pair.  "
-               "C: histories of length <= 3 over 5 object pairs (18 012 histories)"),
-        thorough=("A: depth 1: k<=3 over all 14 bases; depth 2: k<=2 full, k=3 over all 24 components with 5 quantities "
+               "C: histories of length <= 3 over 7 object pairs (25 380 histories)"),
+        thorough=("A: depth 1: k<=3 over all 18 bases; depth 2: k<=2 full, k=3 over all 29 components with 5 quantities "
                   "and over the quick alphabet with 7; depth 3: k<=3 over 4 bases + 3 of R1 + R2; string arguments k<=2 full, k=3 over 8 bases with 5 quantities.  "
-                  "B: as quick, plus: every later-part spelling independently; all 11^3 percentage tuples; all 48 "
+                  "B: as quick, plus: every later-part spelling independently; all 13^3 percentage tuples; all 48 "
                   "quantity pairs for every unit pair; 2 quantity triples per unit triple; nesting depth 3 (720 "
                   "derivations); group in group in group; collisions with every element of the table (131 parts).  "
-                  "C: histories of length <= 4 (302 988 histories)")),
+                  "C: histories of length <= 4 (428 268 histories)")),
     assumptions=[
         "atomic masses and element densities are read from the library (their correctness is C06)",
         "compound parts of a string and base components are built with formula(text) (compound grammar: C01/C12)",
@@ -79,9 +89,7 @@ META = dict(
         "excluded as left open by the text: a zero amount in a VOLUME UNIT ('0.0mL SiO2') of a material without "
         "density - the string is translated to grams with the part's density before anything is mixed, so the "
         "quantity of 'the corresponding call' (0 x unknown) is not defined and the documented missing-density error "
-        "is as defensible as vanishing; explicit percentages that sum to exactly 100 (the grammar text says 'the "
-        "final portion adding to 100%', the library's own error text 'must sum to less than 100%': rejecting them "
-        "would be a legitimate reading); quantity mixtures whose amounts are all zero and the density of an all-zero "
+        "is as defensible as vanishing; quantity mixtures whose amounts are all zero and the density of an all-zero "
         "(empty) mixture (0/0); a parenthesised mixture as a whole formula (not in the documented grammar); the "
         "RESULT of a call with keyword arguments density/natural_density/name/table (such calls occur in the "
         "histories, only their side effects are judged); in-place `density = None` on a single-element Formula "
@@ -90,6 +98,14 @@ META = dict(
         "argument objects are compared by their public instance attributes (structure by identity, density, name, "
         "total_mass, thickness ...) and by the values a caller can read (str, atoms, hill, mass, mass_fraction, "
         "charge, density, natural_density); attributes with a leading underscore (possible caches) are not looked at",
+        "explicit percentages that sum to exactly 100 ARE judged: the statement says 'percentages leave the remainder "
+        "to the last component', 'the string forms mean the same as the corresponding calls' and 'components with "
+        "zero quantity vanish', and formula_grammar.rst says 'the final portion adding to 100%' - a final portion of "
+        "zero adds to 100, the corresponding call has a zero quantity, and that component vanishes; the wording of the "
+        "library's own error message ('must sum to less than 100%') is not part of the documentation.  Only tuples "
+        "whose float sum is exactly 100.0 are judged (all multiples of 0.5 here)",
+        "formula(f, density=d) gives the same structure with another density (used to build the structure-equal "
+        "mixture component; C12)",
         "error cases accept any exception class",
         "string forms are compared with the calls they abbreviate, so they are explored only when part A is silent",
     ],
